@@ -193,3 +193,27 @@ pub fn temp_file(root: &Path, data: &[u8]) -> PathBuf {
     std::fs::write(&p, data).expect("write scratch file");
     p
 }
+
+static GLOBAL_CLI: OnceLock<PathBuf> = OnceLock::new();
+static GLOBAL_ROOT: OnceLock<PathBuf> = OnceLock::new();
+
+/// Set once by the binary: the checked CLI executable and the framework root.
+pub fn set_global(cli: Option<PathBuf>, root: PathBuf) {
+    if let Some(c) = cli {
+        let _ = GLOBAL_CLI.set(c);
+    }
+    let _ = GLOBAL_ROOT.set(root);
+}
+
+pub fn global_cli() -> Option<PathBuf> {
+    GLOBAL_CLI.get().filter(|p| p.exists()).cloned()
+}
+
+pub fn global_root() -> PathBuf {
+    GLOBAL_ROOT.get().cloned().unwrap_or_else(|| PathBuf::from("/verif"))
+}
+
+/// Runs the global CLI with a 60 s watchdog; None if no CLI is configured.
+pub fn run_global(inv: &Invocation) -> Option<CliOut> {
+    Some(run(&global_cli()?, inv, Duration::from_secs(60)))
+}
